@@ -13,6 +13,7 @@ import (
 	"flag"
 	"fmt"
 	"math/rand"
+	"os"
 	"sync"
 	"sync/atomic"
 	"time"
@@ -55,7 +56,12 @@ func (s *S) must(ok bool, what string) bool {
 
 func newS(c *vh.Ctx, name string, o genx.Options, onGen func(p *genx.Peer)) *S {
 	if s1() {
-		o.Secs1, o.Retry, o.T2 = true, 1, 30*time.Millisecond
+		o.Secs1, o.Retry = true, 1
+		if o.T2 == 0 {
+			// scripted scenarios: a line timer far above the scripted peer's worst scheduling delay,
+			// so that the library does not end a generation on its own (random histories use 30 ms)
+			o.T2 = 150 * time.Millisecond
+		}
 		name = "s1-" + name
 	}
 	e, err := genx.NewEnv(o)
@@ -89,7 +95,7 @@ func newS(c *vh.Ctx, name string, o genx.Options, onGen func(p *genx.Peer)) *S {
 
 // counts derived from the harness's own call records and the peers' own frame counts
 type indep struct {
-	sent, recvHi, recvEv, err, drop, aerr int64
+	sent, recvHi, recvEv, err, drop, aerr, redials int64
 }
 
 func (s *S) indep() indep {
@@ -119,6 +125,7 @@ func (s *S) indep() indep {
 		}
 	}
 	x.aerr, x.drop = s.e.AsyncErrs.Load(), x.drop+s.e.AsyncNotSel.Load()
+	x.redials = s.e.ReDials.Load()
 	return x
 }
 
@@ -163,7 +170,7 @@ func (s *S) quiesce(live bool, where string) {
 	waitFor(2*time.Second, func() bool {
 		x = s.indep()
 		m := e.Metrics()
-		return m[0] == x.sent && m[1] >= x.recvEv && m[1] <= x.recvHi && m[2] == 0 && m[3] == x.err && m[4] == x.drop && m[5] == x.aerr && m[6] == 0 && m[7] == s.reconnects
+		return m[0] == x.sent && m[1] >= x.recvEv && m[1] <= x.recvHi && m[2] == 0 && m[3] == x.err && m[4] == x.drop && m[5] == x.aerr && m[6] == 0 && m[7] == x.redials
 	})
 	x = s.indep()
 	if !settled {
@@ -172,7 +179,7 @@ func (s *S) quiesce(live bool, where string) {
 	}
 	m := e.Snapshot(true)
 	kase := fmt.Sprintf("%s sentDelta=%d getters{sent=%d recv=%d inflight=%d err=%d drop=%d asyncErr=%d reconnecting=%d reconnects=%d} independent{peerRecv=%d peerSent=%d dispatchEvidence=%d err=%d drop=%d asyncErr=%d reconnects=%d}",
-		where, m[0]-x.sent, m[0], m[1], m[2], m[3], m[4], m[5], m[6], m[7], x.sent, x.recvHi, x.recvEv, x.err, x.drop, x.aerr, s.reconnects)
+		where, m[0]-x.sent, m[0], m[1], m[2], m[3], m[4], m[5], m[6], m[7], x.sent, x.recvHi, x.recvEv, x.err, x.drop, x.aerr, x.redials)
 	if m[2] != 0 {
 		s.fail("in-flight gauge not zero at a quiescent point", kase)
 	}
@@ -194,7 +201,14 @@ func (s *S) quiesce(live bool, where string) {
 	if m[6] != 0 {
 		s.fail("reconnecting gauge not zero at a quiescent point", kase)
 	}
-	if m[7] != s.reconnects {
+	if x.redials > s.reconnects {
+		// a generation ended without the scenario injecting it (e.g. a SECS-I send ran out of
+		// retries because the scripted peer was scheduled late): still an involuntary drop followed
+		// by a successful re-dial, which the harness's dial callback counted
+		s.c.Count("generation-ended-by-library")
+		s.reconnects = x.redials
+	}
+	if m[7] != x.redials {
 		s.fail("reconnects counter differs from the successful re-dials after involuntary drops", kase)
 	}
 }
@@ -202,7 +216,7 @@ func (s *S) quiesce(live bool, where string) {
 func (s *S) finish() {
 	e := s.e
 	done := make(chan struct{})
-	go func() { _ = e.Conn.Close(); close(done) }()
+	go func() { _ = e.Close(); close(done) }()
 	select {
 	case <-done:
 	case <-time.After(e.CloseTimeout + slack):
@@ -241,6 +255,9 @@ func (s *S) finish() {
 		// the history already failed an implementation-level oracle (reported with its own
 		// case): the monitor would only repeat it as a correspondence mismatch
 		s.c.Count("scenario-failed:" + s.name)
+		if os.Getenv("VERIF_DEBUG") != "" {
+			fmt.Fprintln(os.Stderr, "FAILED-HISTORY "+s.name+" | "+genx.Line(evs))
+		}
 		return
 	}
 	line := "H " + s.name + " | " + genx.Line(evs)
@@ -597,7 +614,7 @@ func closeAfterAck(c *vh.Ctx, iters int) {
 			bg := context.Background()
 			cs := []*genx.Call{e.Start(genx.KSyncW, bg), e.Start(genx.KSyncW, bg)}
 			s.must(waitFor(5*time.Second, func() bool { return cs[0].OnWire() && cs[1].OnWire() }), "primaries acknowledged")
-			_ = e.Conn.Close()
+			_ = e.Close()
 			s.wait(cs...)
 		}
 		s.finish()
@@ -619,7 +636,7 @@ func closeReopen(c *vh.Ctx) {
 	bg := context.Background()
 	cs := []*genx.Call{e.Start(genx.KSyncW, bg), e.Start(genx.KSyncW, bg)}
 	s.must(waitFor(5*time.Second, func() bool { return cs[0].OnWire() && cs[1].OnWire() }), "primaries on the wire")
-	_ = e.Conn.Close()
+	_ = e.Close()
 	s.wait(cs...)
 	s.quiesce(false, "closed-1")
 	s.wait(e.Start(genx.KSyncW, bg)) // refused: closed
@@ -635,6 +652,7 @@ func closeReopen(c *vh.Ctx) {
 func random(c *vh.Ctx, r *rand.Rand, idx int) {
 	o := genx.DefaultOptions()
 	o.T3 = time.Duration(150+r.Intn(100)) * time.Millisecond
+	o.T2 = 30 * time.Millisecond
 	nGen := 1 + r.Intn(3)
 	mode := make([]int, 16)
 	for i := range mode {
@@ -756,7 +774,7 @@ func modelEq(c *vh.Ctx) {
 	}
 	close(s.stopS)
 	s.sWg.Wait()
-	_ = e.Conn.Close()
+	_ = e.Close()
 }
 
 // SECS-I variant: reply, T3, async, drop while waiting, write failure by retry exhaustion
@@ -804,7 +822,7 @@ func modelEqS1(c *vh.Ctx) {
 	}
 	close(s.stopS)
 	s.sWg.Wait()
-	_ = e.Conn.Close()
+	_ = e.Close()
 }
 
 func main() {
